@@ -1,12 +1,583 @@
-(* C19/Proofs.v -- lemmas about the geometry model at R. *)
-From Coq Require Import ZArith QArith Reals Lra Lia Psatz List Bool.
+(* C19/Proofs.v -- lemmas about the geometry model at R (rt := sqrt). *)
+From Coq Require Import ZArith QArith Reals Lra Lia Psatz Nsatz List Bool.
 From Verif Require Import Base.Num C19.Model.
 Import ListNotations.
 Local Open Scope R_scope.
 
-Lemma euler2_orthonormal_l (c s : R) : c * c + s * s = 1 ->
-  mm2 (tr2 (euler2 (c, s))) (euler2 (c, s)) = id2 /\ det2 (euler2 (c, s)) = 1.
+Notation V2 := (R * R)%type.
+Notation V3 := (R * R * R)%type.
+Notation M2 := ((R * R) * (R * R))%type.
+Notation M3 := ((R * R * R) * (R * R * R) * (R * R * R))%type.
+
+Ltac unf :=
+  unfold mm2, tr2, euler2, id2, det2, mv2, dot2, add2, sub2, scal2, sdiv2, neg2,
+         mm3, tr3, euler3, id3, det3, mv3, dot3, add3, sub3, scal3, sdiv3, neg3, cross3, axis_rot in *;
+  numR.
+Ltac d2 v := let a := fresh v "0" in let b := fresh v "1" in destruct v as [a b].
+Ltac d3 v := let a := fresh v "0" in let b := fresh v "1" in let c := fresh v "2" in destruct v as [[a b] c].
+Ltac pair_eq := repeat match goal with |- (_, _) = (_, _) => apply f_equal2 end; try reflexivity.
+
+Definition is_rot2 (m : M2) : Prop := mm2 (tr2 m) m = id2 /\ det2 m = 1.
+Definition is_rot3 (m : M3) : Prop := mm3 (tr3 m) m = id3 /\ det3 m = 1.
+Definition on_circle (a : R * R) : Prop := fst a * fst a + snd a * snd a = 1.
+
+(* ------------------------------------------------------------ rotations *)
+Lemma euler2_rot (a : R * R) : on_circle a -> is_rot2 (euler2 a).
 Proof.
-  intros Hc. unfold mm2, tr2, euler2, id2, det2, dot2. numR.
-  split; [repeat f_equal|]; nra.
+  destruct a as [c s]; unfold on_circle, is_rot2; cbn [fst snd]; intros Hc. unf.
+  split; [pair_eq|]; nra.
 Qed.
+
+Lemma euler3_rot (phi theta psi : R * R) :
+  on_circle phi -> on_circle theta -> on_circle psi -> is_rot3 (euler3 phi theta psi).
+Proof.
+  destruct phi as [c1 s1], theta as [c2 s2], psi as [c3 s3]; unfold on_circle, is_rot3; cbn [fst snd].
+  intros H1 H2 H3. unf. split; [pair_eq|]; nsatz.
+Qed.
+
+Lemma axis_rot_rot (ax : V3) (a : R * R) : dot3 ax ax = 1 -> on_circle a -> is_rot3 (axis_rot ax a).
+Proof.
+  d3 ax; destruct a as [c s]; unfold on_circle, is_rot3; cbn [fst snd]. unf.
+  intros Ha Hc. split; [pair_eq|]; nsatz.
+Qed.
+
+Lemma axis_rot_fixes_axis (ax : V3) (a : R * R) : dot3 ax ax = 1 -> mv3 (axis_rot ax a) ax = ax.
+Proof.
+  d3 ax; destruct a as [c s]. unf. intros Ha. pair_eq; nsatz.
+Qed.
+
+(* a rotation preserves inner products, hence lengths, distances and angles *)
+Lemma rot2_isometry (m : M2) (v w : V2) : mm2 (tr2 m) m = id2 -> dot2 (mv2 m v) (mv2 m w) = dot2 v w.
+Proof.
+  destruct m as [[a b] [c d]]; d2 v; d2 w. unf. intros Hm.
+  injection Hm as H1 H2 H3 H4. nsatz.
+Qed.
+Lemma rot3_isometry (m : M3) (v w : V3) : mm3 (tr3 m) m = id3 -> dot3 (mv3 m v) (mv3 m w) = dot3 v w.
+Proof.
+  destruct m as [[[[a b] c] [[d e] f]] [[g h] i]]; d3 v; d3 w. unf. intros Hm.
+  injection Hm as H1 H2 H3 H4 H5 H6 H7 H8 H9. nsatz.
+Qed.
+
+(* ------------------------------------------------------ normalisation (sqrt) *)
+Lemma dot3_nonneg (v : V3) : 0 <= dot3 v v.
+Proof. d3 v. unf. nra. Qed.
+Lemma dot2_nonneg (v : V2) : 0 <= dot2 v v.
+Proof. d2 v. unf. nra. Qed.
+Lemma norm3_sq (v : V3) : norm3 sqrt v * norm3 sqrt v = dot3 v v.
+Proof. unfold norm3. numR. apply sqrt_sqrt, dot3_nonneg. Qed.
+Lemma norm2_sq (v : V2) : norm2 sqrt v * norm2 sqrt v = dot2 v v.
+Proof. unfold norm2. numR. apply sqrt_sqrt, dot2_nonneg. Qed.
+Lemma norm3_nonneg (v : V3) : 0 <= norm3 sqrt v.
+Proof. unfold norm3. apply sqrt_pos. Qed.
+Lemma norm2_nonneg (v : V2) : 0 <= norm2 sqrt v.
+Proof. unfold norm2. apply sqrt_pos. Qed.
+
+Lemma normalize3_unit (v : V3) : norm3 sqrt v <> 0 ->
+  dot3 (sdiv3 v (norm3 sqrt v)) (sdiv3 v (norm3 sqrt v)) = 1.
+Proof.
+  intros Hn. pose proof (norm3_sq v) as Hs. set (n := norm3 sqrt v) in *.
+  d3 v. unf. field_simplify_eq; [|exact Hn]. nra.
+Qed.
+Lemma normalize2_unit (v : V2) : norm2 sqrt v <> 0 ->
+  dot2 (sdiv2 v (norm2 sqrt v)) (sdiv2 v (norm2 sqrt v)) = 1.
+Proof.
+  intros Hn. pose proof (norm2_sq v) as Hs. set (n := norm2 sqrt v) in *.
+  d2 v. unf. field_simplify_eq; [|exact Hn]. nra.
+Qed.
+Lemma norm3_zero_iff (v : V3) : norm3 sqrt v = 0 <-> v = (0, 0, 0).
+Proof.
+  split.
+  - intros Hn. pose proof (norm3_sq v) as Hs. rewrite Hn in Hs. d3 v. unf.
+    assert (v0 = 0) by nra. assert (v1 = 0) by nra. assert (v2 = 0) by nra. subst. reflexivity.
+  - intros ->. unfold norm3. unf. replace (0 * 0 + 0 * 0 + 0 * 0) with 0 by ring. apply sqrt_0.
+Qed.
+Lemma norm2_zero_iff (v : V2) : norm2 sqrt v = 0 <-> v = (0, 0).
+Proof.
+  split.
+  - intros Hn. pose proof (norm2_sq v) as Hs. rewrite Hn in Hs. d2 v. unf.
+    assert (v0 = 0) by nra. assert (v1 = 0) by nra. subst. reflexivity.
+  - intros ->. unfold norm2. unf. replace (0 * 0 + 0 * 0) with 0 by ring. apply sqrt_0.
+Qed.
+
+(* AxisOrientedGeometry.__init__: every nonzero axis is accepted and stored with unit length *)
+Lemma unit_axis_spec (axis : V3) :
+  (axis = (0, 0, 0) -> unit_axis sqrt axis = None) /\
+  (axis <> (0, 0, 0) -> exists u, unit_axis sqrt axis = Some u /\ dot3 u u = 1).
+Proof.
+  unfold unit_axis. numR. split.
+  - intros Hz. apply norm3_zero_iff in Hz. destruct (Reqb_spec (norm3 sqrt axis) 0); congruence.
+  - intros Hnz. destruct (Reqb_spec (norm3 sqrt axis) 0) as [Hn|Hn].
+    + apply norm3_zero_iff in Hn. contradiction.
+    + eexists; split; [reflexivity|]. apply normalize3_unit, Hn.
+Qed.
+Lemma unit_axis_some (axis u : V3) : unit_axis sqrt axis = Some u -> dot3 u u = 1.
+Proof.
+  unfold unit_axis. numR. destruct (Reqb_spec (norm3 sqrt axis) 0) as [Hn|Hn]; [discriminate|].
+  intros [= <-]. apply normalize3_unit, Hn.
+Qed.
+
+(* ---------------------------------------------------- detectors: normals *)
+Lemma perp2_spec (v : V2) : v <> (0, 0) ->
+  dot2 (perp2 sqrt v) v = 0 /\ dot2 (perp2 sqrt v) (perp2 sqrt v) = 1.
+Proof.
+  intros Hv. d2 v. unfold perp2. numR.
+  destruct (Reqb_spec v0 0) as [H0|H0]; destruct (Reqb_spec v1 0) as [H1|H1]; cbn [negb orb];
+    try (subst; exfalso; apply Hv; reflexivity).
+  all: assert (Hn : norm2 sqrt (- v1, v0) <> 0)
+         by (intros Hn; apply norm2_zero_iff in Hn; injection Hn as Ha Hb; lra).
+  all: split; [|apply normalize2_unit, Hn].
+  all: set (n := norm2 sqrt (- v1, v0)) in *; unf; field; exact Hn.
+Qed.
+
+Lemma cross3_orth_l (a b : V3) : dot3 (cross3 a b) a = 0.
+Proof. d3 a; d3 b. unf. ring. Qed.
+Lemma cross3_orth_r (a b : V3) : dot3 (cross3 a b) b = 0.
+Proof. d3 a; d3 b. unf. ring. Qed.
+Lemma dot3_sdiv_l (a b : V3) (k : R) : k <> 0 -> dot3 (sdiv3 a k) b = dot3 a b / k.
+Proof. intros Hk. d3 a; d3 b. unf. field. exact Hk. Qed.
+Lemma dot2_neg_l (a b : V2) : dot2 (neg2 a) b = - dot2 a b.
+Proof. d2 a; d2 b. unf. ring. Qed.
+Lemma dot2_neg_neg (a : V2) : dot2 (neg2 a) (neg2 a) = dot2 a a.
+Proof. d2 a. unf. ring. Qed.
+
+(* surface normal of any 1-d detector in the plane: unit, orthogonal to the surface tangent *)
+Lemma normal2_spec (d : det2d) (p : dpar2) : deriv2 d p <> (0, 0) ->
+  dot2 (normal2 sqrt d p) (deriv2 d p) = 0 /\ dot2 (normal2 sqrt d p) (normal2 sqrt d p) = 1.
+Proof.
+  intros Hd. unfold normal2. destruct (perp2_spec _ Hd) as [Ho Hu].
+  rewrite dot2_neg_l, dot2_neg_neg, Ho, Hu. split; ring.
+Qed.
+(* surface normal of any 2-d detector in space: unit, orthogonal to both surface tangents *)
+Lemma normal3_spec (d : det3d) (p : dpar3) :
+  cross3 (fst (deriv3 d p)) (snd (deriv3 d p)) <> (0, 0, 0) ->
+  dot3 (normal3 sqrt d p) (fst (deriv3 d p)) = 0 /\ dot3 (normal3 sqrt d p) (snd (deriv3 d p)) = 0 /\
+  dot3 (normal3 sqrt d p) (normal3 sqrt d p) = 1.
+Proof.
+  unfold normal3. destruct (deriv3 d p) as [d0 d1]. cbn [fst snd]. intros Hc.
+  assert (Hn : norm3 sqrt (cross3 d0 d1) <> 0) by (intros Hn; apply norm3_zero_iff in Hn; contradiction).
+  split; [|split]; [| |apply normalize3_unit, Hn].
+  all: rewrite dot3_sdiv_l by exact Hn; rewrite ?cross3_orth_l, ?cross3_orth_r; unfold Rdiv; ring.
+Qed.
+
+(* well-formed detectors (what the constructors establish) *)
+Definition wf_det2 (d : det2d) : Prop :=
+  match d with Flat1 ax => dot2 ax ax = 1 | Circ ax r => dot2 ax ax = 1 /\ 0 < r end.
+Definition wf_det3 (d : det3d) : Prop :=
+  match d with
+  | Flat2 a0 a1 => dot3 a0 a0 = 1 /\ dot3 a1 a1 = 1 /\ cross3 a0 a1 <> (0, 0, 0)
+  | Cyl a0 a1 r m | Sph a0 a1 r m => dot3 a0 a0 = 1 /\ dot3 a1 a1 = 1 /\ 0 < r /\ is_rot3 m
+  end.
+
+Lemma mk_flat1_wf (axis : V2) (d : det2d) : mk_flat1 sqrt axis = Some d -> wf_det2 d.
+Proof.
+  unfold mk_flat1. numR. destruct (Reqb_spec (norm2 sqrt axis) 0) as [Hn|Hn]; [discriminate|].
+  intros [= <-]. cbn. apply normalize2_unit, Hn.
+Qed.
+Lemma mk_circ_wf (axis : V2) (r : R) (d : det2d) : mk_circ sqrt axis r = Some d -> wf_det2 d.
+Proof.
+  unfold mk_circ. numR. destruct (Reqb_spec (norm2 sqrt axis) 0) as [Hn|Hn]; [discriminate|].
+  destruct (Rleb_spec r 0) as [Hr|Hr]; [discriminate|].
+  intros [= <-]. cbn. split; [apply normalize2_unit, Hn | lra].
+Qed.
+
+Lemma cross3_sdiv (a b : V3) (k l : R) : k <> 0 -> l <> 0 ->
+  cross3 (sdiv3 a k) (sdiv3 b l) = sdiv3 (cross3 a b) (k * l).
+Proof. intros Hk Hl. d3 a; d3 b. unf. pair_eq; field; split; assumption. Qed.
+Lemma cross3_zero_l (b : V3) : cross3 (0, 0, 0) b = (0, 0, 0).
+Proof. d3 b. unf. pair_eq; ring. Qed.
+Lemma cross3_zero_r (a : V3) : cross3 a (0, 0, 0) = (0, 0, 0).
+Proof. d3 a. unf. pair_eq; ring. Qed.
+Lemma sdiv3_zero_inv (v : V3) (k : R) : k <> 0 -> sdiv3 v k = (0, 0, 0) -> v = (0, 0, 0).
+Proof.
+  intros Hk. d3 v. unf. intros [= H0 H1 H2].
+  pair_eq; [apply (Rmult_eq_reg_r (/ k)) | apply (Rmult_eq_reg_r (/ k)) | apply (Rmult_eq_reg_r (/ k))];
+    try (apply Rinv_neq_0_compat; exact Hk); unfold Rdiv in *; lra.
+Qed.
+
+Lemma mk_flat2_wf (a0 a1 : V3) (d : det3d) : mk_flat2 sqrt a0 a1 = Some d -> wf_det3 d.
+Proof.
+  unfold mk_flat2. numR. destruct (Reqb_spec (norm3 sqrt (cross3 a0 a1)) 0) as [Hn|Hn]; [discriminate|].
+  intros [= <-]. cbn.
+  assert (Hc : cross3 a0 a1 <> (0, 0, 0)) by (intros Hc; apply Hn, norm3_zero_iff, Hc).
+  assert (H0 : norm3 sqrt a0 <> 0).
+  { intros H0. apply norm3_zero_iff in H0. subst a0. apply Hc, cross3_zero_l. }
+  assert (H1 : norm3 sqrt a1 <> 0).
+  { intros H1. apply norm3_zero_iff in H1. subst a1. apply Hc, cross3_zero_r. }
+  repeat split; try (apply normalize3_unit; assumption).
+  rewrite cross3_sdiv by assumption. intros Hz. apply Hc.
+  eapply sdiv3_zero_inv; [|exact Hz]. apply Rmult_integral_contrapositive_currified; assumption.
+Qed.
+
+(* -------------------------------------------------------- parallel beams *)
+Lemma euler2_id : euler2 (1, 0) = id2.
+Proof. unf. pair_eq; ring. Qed.
+Lemma axis_rot_id (ax : V3) : axis_rot ax (1, 0) = id3.
+Proof. d3 ax. unf. pair_eq; ring. Qed.
+Lemma mv2_id (v : V2) : mv2 id2 v = v.
+Proof. d2 v. unf. pair_eq; ring. Qed.
+Lemma mv3_id (v : V3) : mv3 id3 v = v.
+Proof. d3 v. unf. pair_eq; ring. Qed.
+Lemma mv2_add (m : M2) (v w : V2) : mv2 m (add2 v w) = add2 (mv2 m v) (mv2 m w).
+Proof. destruct m as [[a b] [c d]]; d2 v; d2 w. unf. pair_eq; ring. Qed.
+Lemma mv3_add (m : M3) (v w : V3) : mv3 m (add3 v w) = add3 (mv3 m v) (mv3 m w).
+Proof. destruct m as [[[[a b] c] [[d e] f]] [[g h] i]]; d3 v; d3 w. unf. pair_eq; ring. Qed.
+Lemma mv2_sub (m : M2) (v w : V2) : mv2 m (sub2 v w) = sub2 (mv2 m v) (mv2 m w).
+Proof. destruct m as [[a b] [c d]]; d2 v; d2 w. unf. pair_eq; ring. Qed.
+Lemma mv3_sub (m : M3) (v w : V3) : mv3 m (sub3 v w) = sub3 (mv3 m v) (mv3 m w).
+Proof. destruct m as [[[[a b] c] [[d e] f]] [[g h] i]]; d3 v; d3 w. unf. pair_eq; ring. Qed.
+Lemma mv2_scal (m : M2) (k : R) (v : V2) : mv2 m (scal2 k v) = scal2 k (mv2 m v).
+Proof. destruct m as [[a b] [c d]]; d2 v. unf. pair_eq; ring. Qed.
+Lemma mv3_scal (m : M3) (k : R) (v : V3) : mv3 m (scal3 k v) = scal3 k (mv3 m v).
+Proof. destruct m as [[[[a b] c] [[d e] f]] [[g h] i]]; d3 v. unf. pair_eq; ring. Qed.
+
+(* rigid motion: the detector point at angle a is the translation point plus the rotation of the
+   angle-independent vector (det_pos_init - translation) + surface(u) *)
+Lemma par2d_rigid (g : par2d) (a : R * R) (p : dpar2) :
+  par2d_detpoint g a p =
+  add2 (p2_tr g) (mv2 (euler2 a) (add2 (sub2 (p2_pos g) (p2_tr g)) (surf2 (p2_det g) p))).
+Proof.
+  unfold par2d_detpoint, par2d_refpoint, par_refpoint2, par2d_rot. rewrite mv2_add.
+  destruct (p2_tr g) as [t0 t1], (mv2 (euler2 a) (sub2 (p2_pos g) (t0, t1))) as [x0 x1],
+    (mv2 (euler2 a) (surf2 (p2_det g) p)) as [y0 y1]. unf. pair_eq; ring.
+Qed.
+Lemma par3a_rigid (g : par3a) (a : R * R) (p : dpar3) :
+  par3a_detpoint g a p =
+  add3 (pa_tr g) (mv3 (axis_rot (pa_axis g) a) (add3 (sub3 (pa_pos g) (pa_tr g)) (surf3 (pa_det g) p))).
+Proof.
+  unfold par3a_detpoint, par3a_refpoint, par_refpoint3, par3a_rot. rewrite mv3_add.
+  destruct (pa_tr g) as [[t0 t1] t2], (mv3 (axis_rot (pa_axis g) a) (sub3 (pa_pos g) (t0, t1, t2))) as [[x0 x1] x2],
+    (mv3 (axis_rot (pa_axis g) a) (surf3 (pa_det g) p)) as [[y0 y1] y2]. unf. pair_eq; ring.
+Qed.
+Lemma par3d_rigid (g : par3d) (ph th ps : R * R) (p : dpar3) :
+  par3d_detpoint g ph th ps p =
+  add3 (p3_tr g) (mv3 (euler3 ph th ps) (add3 (sub3 (p3_pos g) (p3_tr g)) (surf3 (p3_det g) p))).
+Proof.
+  unfold par3d_detpoint, par3d_refpoint, par_refpoint3. rewrite mv3_add.
+  destruct (p3_tr g) as [[t0 t1] t2], (mv3 (euler3 ph th ps) (sub3 (p3_pos g) (t0, t1, t2))) as [[x0 x1] x2],
+    (mv3 (euler3 ph th ps) (surf3 (p3_det g) p)) as [[y0 y1] y2]. unf. pair_eq; ring.
+Qed.
+
+(* distances on the detector are those of the intrinsic surface, for every angle *)
+Lemma sub2_add_cancel (t x y : V2) : sub2 (add2 t x) (add2 t y) = sub2 x y.
+Proof. d2 t; d2 x; d2 y. unf. pair_eq; ring. Qed.
+Lemma sub3_add_cancel (t x y : V3) : sub3 (add3 t x) (add3 t y) = sub3 x y.
+Proof. d3 t; d3 x; d3 y. unf. pair_eq; ring. Qed.
+Lemma sub2_add_cancel_l (t x y : V2) : sub2 (add2 t x) (add2 t y) = sub2 x y.
+Proof. apply sub2_add_cancel. Qed.
+
+Lemma par2d_distance (g : par2d) (a : R * R) (p q : dpar2) : on_circle a ->
+  let d := sub2 (par2d_detpoint g a p) (par2d_detpoint g a q) in
+  let s := sub2 (surf2 (p2_det g) p) (surf2 (p2_det g) q) in
+  dot2 d d = dot2 s s.
+Proof.
+  intros Ha. cbn zeta. rewrite !par2d_rigid, sub2_add_cancel, <- mv2_sub, sub2_add_cancel.
+  apply rot2_isometry, (euler2_rot a Ha).
+Qed.
+Lemma par3a_distance (g : par3a) (a : R * R) (p q : dpar3) :
+  dot3 (pa_axis g) (pa_axis g) = 1 -> on_circle a ->
+  let d := sub3 (par3a_detpoint g a p) (par3a_detpoint g a q) in
+  let s := sub3 (surf3 (pa_det g) p) (surf3 (pa_det g) q) in
+  dot3 d d = dot3 s s.
+Proof.
+  intros Hu Ha. cbn zeta. rewrite !par3a_rigid, sub3_add_cancel, <- mv3_sub, sub3_add_cancel.
+  apply rot3_isometry, (axis_rot_rot _ a Hu Ha).
+Qed.
+Lemma par3d_distance (g : par3d) (ph th ps : R * R) (p q : dpar3) :
+  on_circle ph -> on_circle th -> on_circle ps ->
+  let d := sub3 (par3d_detpoint g ph th ps p) (par3d_detpoint g ph th ps q) in
+  let s := sub3 (surf3 (p3_det g) p) (surf3 (p3_det g) q) in
+  dot3 d d = dot3 s s.
+Proof.
+  intros H1 H2 H3. cbn zeta. rewrite !par3d_rigid, sub3_add_cancel, <- mv3_sub, sub3_add_cancel.
+  apply rot3_isometry, (euler3_rot _ _ _ H1 H2 H3).
+Qed.
+
+(* parallel rays: unit direction, the same for all detector points (flat detectors),
+   orthogonal to the rotated detector axes *)
+Lemma unit2_nonzero (v : V2) : dot2 v v = 1 -> v <> (0, 0).
+Proof. intros Hu ->. unf. lra. Qed.
+
+Lemma par2d_ray (g : par2d) (a : R * R) (p q : dpar2) (ax : V2) :
+  p2_det g = Flat1 ax -> dot2 ax ax = 1 -> on_circle a ->
+  par2d_det_to_src sqrt g a p = par2d_det_to_src sqrt g a q /\
+  dot2 (par2d_det_to_src sqrt g a p) (par2d_det_to_src sqrt g a p) = 1 /\
+  dot2 (par2d_det_to_src sqrt g a p) (par2d_det_axis g a) = 0.
+Proof.
+  intros Hd Hu Ha. unfold par2d_det_to_src, par2d_det_axis, par2d_rot. rewrite Hd.
+  destruct p as [u [cu su]], q as [u' [cu' su']].
+  pose proof (euler2_rot a Ha) as [Hr _].
+  split; [reflexivity|]. rewrite !rot2_isometry by exact Hr.
+  destruct (normal2_spec (Flat1 ax) (u, (cu, su))) as [Ho Hn]; [cbn; apply unit2_nonzero, Hu|].
+  cbn [deriv2 det2_axis] in *. split; assumption.
+Qed.
+
+Lemma par3_ray_generic (m : M3) (a0 a1 : V3) (p q : dpar3) :
+  mm3 (tr3 m) m = id3 -> cross3 a0 a1 <> (0, 0, 0) ->
+  let n := fun p => mv3 m (normal3 sqrt (Flat2 a0 a1) p) in
+  n p = n q /\ dot3 (n p) (n p) = 1 /\ dot3 (n p) (mv3 m a0) = 0 /\ dot3 (n p) (mv3 m a1) = 0.
+Proof.
+  intros Hr Hc. cbn zeta.
+  destruct p as [[[u v] [cu su]] [cv sv]], q as [[[u' v'] [cu' su']] [cv' sv']].
+  split; [reflexivity|]. rewrite !rot3_isometry by exact Hr.
+  destruct (normal3_spec (Flat2 a0 a1) (u, v, (cu, su), (cv, sv))) as [H0 [H1 Hn]]; [cbn; exact Hc|].
+  cbn [deriv3 fst snd] in *. repeat split; assumption.
+Qed.
+
+(* ------------------------------------------------------- divergent beams *)
+Lemma fan_rigid (g : fan) (a : R * R) (dsh : V2) (p : dpar2) :
+  fan_detpoint g a dsh p =
+  add2 (f_tr g) (mv2 (euler2 a) (sub2 (fan_detpoint g (1, 0) dsh p) (f_tr g))).
+Proof.
+  unfold fan_detpoint, fan_refpoint, fan_rot. rewrite euler2_id.
+  destruct (f_s2d g) as [d0 d1], dsh as [s0 s1].
+  set (c2d := add2 (scal2 (f_rd g) _) _). set (sf := surf2 _ _). set (m := euler2 a).
+  rewrite ?mv2_id.
+  assert (E : sub2 (add2 (add2 (f_tr g) c2d) sf) (f_tr g) = add2 c2d sf).
+  { destruct (f_tr g) as [t0 t1], c2d as [x0 x1], sf as [y0 y1]. unf. pair_eq; ring. }
+  rewrite E, mv2_add.
+  destruct (f_tr g) as [t0 t1], (mv2 m c2d) as [x0 x1], (mv2 m sf) as [y0 y1]. unf. pair_eq; ring.
+Qed.
+Lemma fan_src_rigid (g : fan) (a : R * R) (ssh : V2) :
+  fan_src g a ssh = add2 (f_tr g) (mv2 (euler2 a) (sub2 (fan_src g (1, 0) ssh) (f_tr g))).
+Proof.
+  unfold fan_src, fan_rot. rewrite euler2_id.
+  destruct (f_s2d g) as [d0 d1], ssh as [s0 s1].
+  numR. set (c2s := add2 (scal2 (- f_rs g) _) _). rewrite ?mv2_id. f_equal. f_equal.
+  destruct (f_tr g) as [t0 t1], c2s as [x0 x1]. unf. pair_eq; ring.
+Qed.
+
+(* det_to_src (not normalised) is src_position - det_point_position: adding it to the detector
+   point gives the source position *)
+Lemma fan_det_to_src_consistent (g : fan) (a : R * R) (ssh dsh : V2) (p : dpar2) :
+  add2 (fan_detpoint g a dsh p) (fan_det_to_src sqrt g a ssh dsh p false) = fan_src g a ssh.
+Proof.
+  unfold fan_det_to_src. destruct (fan_src g a ssh) as [x0 x1], (fan_detpoint g a dsh p) as [y0 y1].
+  unf. pair_eq; ring.
+Qed.
+Lemma cone_det_to_src_consistent (g : cone) (a : R * R) (ang twopi : R) (ssh dsh : V3) (p : dpar3) :
+  add3 (cone_detpoint sqrt g a ang twopi dsh p) (cone_det_to_src sqrt g a ang twopi ssh dsh p false)
+  = cone_src sqrt g a ang twopi ssh.
+Proof.
+  unfold cone_det_to_src. destruct (cone_src sqrt g a ang twopi ssh) as [[x0 x1] x2],
+    (cone_detpoint sqrt g a ang twopi dsh p) as [[y0 y1] y2].
+  unf. pair_eq; ring.
+Qed.
+(* normalised: unit length, and norm * direction = src - det point *)
+Lemma normalized2 (v : V2) : v <> (0, 0) ->
+  dot2 (sdiv2 v (norm2 sqrt v)) (sdiv2 v (norm2 sqrt v)) = 1 /\
+  scal2 (norm2 sqrt v) (sdiv2 v (norm2 sqrt v)) = v.
+Proof.
+  intros Hv. assert (Hn : norm2 sqrt v <> 0) by (intros Hn; apply norm2_zero_iff in Hn; contradiction).
+  split; [apply normalize2_unit, Hn|]. set (n := norm2 sqrt v) in *. d2 v. unf. pair_eq; field; exact Hn.
+Qed.
+Lemma normalized3 (v : V3) : v <> (0, 0, 0) ->
+  dot3 (sdiv3 v (norm3 sqrt v)) (sdiv3 v (norm3 sqrt v)) = 1 /\
+  scal3 (norm3 sqrt v) (sdiv3 v (norm3 sqrt v)) = v.
+Proof.
+  intros Hv. assert (Hn : norm3 sqrt v <> 0) by (intros Hn; apply norm3_zero_iff in Hn; contradiction).
+  split; [apply normalize3_unit, Hn|]. set (n := norm3 sqrt v) in *. d3 v. unf. pair_eq; field; exact Hn.
+Qed.
+Lemma fan_det_to_src_normalized (g : fan) (a : R * R) (ssh dsh : V2) (p : dpar2) :
+  fan_src g a ssh <> fan_detpoint g a dsh p ->
+  let n := fan_det_to_src sqrt g a ssh dsh p true in
+  let v := fan_det_to_src sqrt g a ssh dsh p false in
+  dot2 n n = 1 /\ scal2 (norm2 sqrt v) n = v /\
+  add2 (fan_detpoint g a dsh p) (scal2 (norm2 sqrt v) n) = fan_src g a ssh.
+Proof.
+  intros Hne. cbn zeta. pose proof (fan_det_to_src_consistent g a ssh dsh p) as Hc.
+  unfold fan_det_to_src in *. set (v := sub2 _ _) in *.
+  assert (Hv : v <> (0, 0)).
+  { intros Hv. apply Hne. rewrite <- Hc, Hv. destruct (fan_detpoint g a dsh p) as [y0 y1]. unf. pair_eq; ring. }
+  destruct (normalized2 v Hv) as [Hu Hs]. rewrite Hs. repeat split; assumption.
+Qed.
+Lemma cone_det_to_src_normalized (g : cone) (a : R * R) (ang twopi : R) (ssh dsh : V3) (p : dpar3) :
+  cone_src sqrt g a ang twopi ssh <> cone_detpoint sqrt g a ang twopi dsh p ->
+  let n := cone_det_to_src sqrt g a ang twopi ssh dsh p true in
+  let v := cone_det_to_src sqrt g a ang twopi ssh dsh p false in
+  dot3 n n = 1 /\ scal3 (norm3 sqrt v) n = v /\
+  add3 (cone_detpoint sqrt g a ang twopi dsh p) (scal3 (norm3 sqrt v) n) = cone_src sqrt g a ang twopi ssh.
+Proof.
+  intros Hne. cbn zeta. pose proof (cone_det_to_src_consistent g a ang twopi ssh dsh p) as Hc.
+  unfold cone_det_to_src in *. set (v := sub3 _ _) in *.
+  assert (Hv : v <> (0, 0, 0)).
+  { intros Hv. apply Hne. rewrite <- Hc, Hv. destruct (cone_detpoint sqrt g a ang twopi dsh p) as [[y0 y1] y2].
+    unf. pair_eq; ring. }
+  destruct (normalized3 v Hv) as [Hu Hs]. rewrite Hs. repeat split; assumption.
+Qed.
+
+(* fan beam without shifts: source on the circle of radius src_radius, detector reference point on
+   the circle of radius det_radius about the translation point, opposite each other *)
+Lemma fan_circles (g : fan) (a : R * R) :
+  dot2 (f_s2d g) (f_s2d g) = 1 -> on_circle a ->
+  let s := sub2 (fan_src g a (0, 0)) (f_tr g) in
+  let r := sub2 (fan_refpoint g a (0, 0)) (f_tr g) in
+  dot2 s s = f_rs g * f_rs g /\ dot2 r r = f_rd g * f_rd g /\
+  scal2 (f_rs g) r = scal2 (- f_rd g) s /\
+  dot2 (sub2 r s) (sub2 r s) = (f_rs g + f_rd g) * (f_rs g + f_rd g).
+Proof.
+  destruct a as [c s]; unfold on_circle; cbn [fst snd]. intros Hd Ha. cbn zeta.
+  unfold fan_src, fan_refpoint, fan_rot.
+  destruct (f_s2d g) as [d0 d1], (f_tr g) as [t0 t1]. set (rs := f_rs g). set (rd := f_rd g). unf.
+  repeat split; try (pair_eq; ring); nsatz.
+Qed.
+
+(* cone beam: the motion is a rotation about the axis through the translation point plus a
+   displacement along the axis *)
+Lemma cone_rigid (g : cone) (a : R * R) (ang twopi : R) (dsh : V3) (p : dpar3) :
+  cone_detpoint sqrt g a ang twopi dsh p =
+  add3 (add3 (c_tr g) (scal3 (cone_along g ang twopi (snd dsh)) (c_axis g)))
+       (mv3 (axis_rot (c_axis g) a)
+            (sub3 (cone_detpoint sqrt g (1, 0) ang twopi dsh p)
+                  (add3 (c_tr g) (scal3 (cone_along g ang twopi (snd dsh)) (c_axis g))))).
+Proof.
+  unfold cone_detpoint, cone_refpoint, cone_rot. rewrite axis_rot_id.
+  destruct dsh as [[s0 s1] s2]. cbn [snd].
+  set (c2d := add3 (scal3 (c_rd g) _) _). set (sf := surf3 _ _). set (al := cone_along _ _ _ _).
+  set (m := axis_rot _ _).
+  rewrite ?mv3_id.
+  assert (E : sub3 (add3 (add3 (add3 (c_tr g) c2d) (scal3 al (c_axis g))) sf)
+                   (add3 (c_tr g) (scal3 al (c_axis g))) = add3 c2d sf).
+  { destruct (c_tr g) as [[t0 t1] t2], c2d as [[x0 x1] x2], sf as [[y0 y1] y2], (c_axis g) as [[z0 z1] z2].
+    unf. pair_eq; ring. }
+  rewrite E, mv3_add.
+  destruct (c_tr g) as [[t0 t1] t2], (mv3 m c2d) as [[x0 x1] x2], (mv3 m sf) as [[y0 y1] y2],
+    (c_axis g) as [[z0 z1] z2]. unf. pair_eq; ring.
+Qed.
+(* helical motion: changing only the angle VALUE moves the source along the axis by pitch * delta / 2 pi *)
+Lemma cone_src_pitch (g : cone) (a : R * R) (ang ang' twopi : R) (ssh : V3) : twopi <> 0 ->
+  sub3 (cone_src sqrt g a ang' twopi ssh) (cone_src sqrt g a ang twopi ssh)
+  = scal3 (c_pitch g * (ang' - ang) / twopi) (c_axis g).
+Proof.
+  intros Ht. unfold cone_src, cone_along. destruct ssh as [[s0 s1] s2].
+  set (x := add3 (c_tr g) _). destruct x as [[x0 x1] x2], (c_axis g) as [[z0 z1] z2].
+  unf. pair_eq; field; exact Ht.
+Qed.
+(* height of the source above the translation point, measured along the axis *)
+Lemma cone_src_height (g : cone) (a : R * R) (ang twopi : R) :
+  dot3 (c_axis g) (c_axis g) = 1 -> on_circle a -> dot3 (c_s2d g) (c_axis g) = 0 ->
+  dot3 (sub3 (cone_src sqrt g a ang twopi (0, 0, 0)) (c_tr g)) (c_axis g) = cone_along g ang twopi 0.
+Proof.
+  intros Hu Ha Ho. unfold cone_src, cone_rot.
+  set (t := sdiv3 _ _). generalize (cone_along g ang twopi 0). intros al.
+  assert (E : add3 (scal3 (- c_rs g) (c_s2d g)) (add3 (scal3 0 (neg3 (c_s2d g))) (scal3 0 t))
+              = scal3 (- c_rs g) (c_s2d g)).
+  { destruct (c_s2d g) as [[d0 d1] d2], t as [[t0 t1] t2]. unf. pair_eq; ring. }
+  numR. rewrite E.
+  pose proof (axis_rot_rot _ a Hu Ha) as [Hr _].
+  pose proof (rot3_isometry _ (scal3 (- c_rs g) (c_s2d g)) (c_axis g) Hr) as Hi.
+  rewrite (axis_rot_fixes_axis _ a Hu) in Hi.
+  set (w := mv3 _ _) in *.
+  destruct (c_tr g) as [[t0 t1] t2], w as [[w0 w1] w2], (c_axis g) as [[z0 z1] z2], (c_s2d g) as [[d0 d1] d2].
+  unf. clear Hr.
+  transitivity ((w0 * z0 + w1 * z1 + w2 * z2) + al * (z0 * z0 + z1 * z1 + z2 * z2)); [ring|].
+  rewrite Hi, Hu.
+  replace (- c_rs g * d0 * z0 + - c_rs g * d1 * z1 + - c_rs g * d2 * z2)
+    with (- c_rs g * (d0 * z0 + d1 * z1 + d2 * z2)) by ring.
+  rewrite Ho. ring.
+Qed.
+
+(* ---- statements assembled for Props.v ---- *)
+Lemma axis_rotation_is_rotation_l : forall (ax : R * R * R) (a : R * R),
+  dot3 ax ax = 1 -> on_circle a ->
+  (mm3 (tr3 (axis_rot ax a)) (axis_rot ax a) = id3 /\ det3 (axis_rot ax a) = 1) /\
+  mv3 (axis_rot ax a) ax = ax.
+Proof. intros ax a Hu Ha. split; [exact (axis_rot_rot ax a Hu Ha) | exact (axis_rot_fixes_axis ax a Hu)]. Qed.
+
+Lemma rotation_preserves_inner_products_l :
+  (forall (m : (R * R) * (R * R)) v w, mm2 (tr2 m) m = id2 -> dot2 (mv2 m v) (mv2 m w) = dot2 v w) /\
+  (forall (m : (R * R * R) * (R * R * R) * (R * R * R)) v w,
+     mm3 (tr3 m) m = id3 -> dot3 (mv3 m v) (mv3 m w) = dot3 v w).
+Proof. split; [exact rot2_isometry | exact rot3_isometry]. Qed.
+
+Lemma parallel2d_rigid_motion_l : forall (g : par2d) (a : R * R) (p q : dpar2),
+  par2d_detpoint g a p = add2 (par2d_refpoint g a) (mv2 (par2d_rot g a) (surf2 (p2_det g) p)) /\
+  par2d_detpoint g a p =
+    add2 (p2_tr g) (mv2 (euler2 a) (add2 (sub2 (p2_pos g) (p2_tr g)) (surf2 (p2_det g) p))) /\
+  (on_circle a ->
+   dot2 (sub2 (par2d_detpoint g a p) (par2d_detpoint g a q)) (sub2 (par2d_detpoint g a p) (par2d_detpoint g a q))
+   = dot2 (sub2 (surf2 (p2_det g) p) (surf2 (p2_det g) q)) (sub2 (surf2 (p2_det g) p) (surf2 (p2_det g) q))).
+Proof.
+  intros g a p q. split; [reflexivity|]. split; [exact (par2d_rigid g a p)|]. exact (par2d_distance g a p q).
+Qed.
+
+Lemma parallel3d_axis_rigid_motion_l : forall (g : par3a) (a : R * R) (p q : dpar3),
+  par3a_detpoint g a p = add3 (par3a_refpoint g a) (mv3 (par3a_rot g a) (surf3 (pa_det g) p)) /\
+  par3a_detpoint g a p =
+    add3 (pa_tr g) (mv3 (axis_rot (pa_axis g) a) (add3 (sub3 (pa_pos g) (pa_tr g)) (surf3 (pa_det g) p))) /\
+  (dot3 (pa_axis g) (pa_axis g) = 1 -> on_circle a ->
+   dot3 (sub3 (par3a_detpoint g a p) (par3a_detpoint g a q)) (sub3 (par3a_detpoint g a p) (par3a_detpoint g a q))
+   = dot3 (sub3 (surf3 (pa_det g) p) (surf3 (pa_det g) q)) (sub3 (surf3 (pa_det g) p) (surf3 (pa_det g) q))).
+Proof.
+  intros g a p q. split; [reflexivity|]. split; [exact (par3a_rigid g a p)|]. exact (par3a_distance g a p q).
+Qed.
+
+Lemma parallel3d_euler_rigid_motion_l : forall (g : par3d) (ph th ps : R * R) (p q : dpar3),
+  par3d_detpoint g ph th ps p =
+    add3 (par3d_refpoint g ph th ps) (mv3 (par3d_rot g ph th ps) (surf3 (p3_det g) p)) /\
+  par3d_detpoint g ph th ps p =
+    add3 (p3_tr g) (mv3 (euler3 ph th ps) (add3 (sub3 (p3_pos g) (p3_tr g)) (surf3 (p3_det g) p))) /\
+  (on_circle ph -> on_circle th -> on_circle ps ->
+   dot3 (sub3 (par3d_detpoint g ph th ps p) (par3d_detpoint g ph th ps q))
+        (sub3 (par3d_detpoint g ph th ps p) (par3d_detpoint g ph th ps q))
+   = dot3 (sub3 (surf3 (p3_det g) p) (surf3 (p3_det g) q)) (sub3 (surf3 (p3_det g) p) (surf3 (p3_det g) q))).
+Proof.
+  intros g ph th ps p q. split; [reflexivity|]. split; [exact (par3d_rigid g ph th ps p)|].
+  exact (par3d_distance g ph th ps p q).
+Qed.
+
+Lemma fanbeam_rigid_motion_l : forall (g : fan) (a : R * R) (ssh dsh : R * R) (p : dpar2),
+  fan_detpoint g a dsh p = add2 (fan_refpoint g a dsh) (mv2 (fan_rot g a) (surf2 (f_det g) p)) /\
+  fan_detpoint g a dsh p = add2 (f_tr g) (mv2 (euler2 a) (sub2 (fan_detpoint g (1, 0) dsh p) (f_tr g))) /\
+  fan_src g a ssh = add2 (f_tr g) (mv2 (euler2 a) (sub2 (fan_src g (1, 0) ssh) (f_tr g))).
+Proof.
+  intros g a ssh dsh p. split; [reflexivity|]. split; [exact (fan_rigid g a dsh p) | exact (fan_src_rigid g a ssh)].
+Qed.
+
+Lemma conebeam_rigid_motion_l : forall (g : cone) (a : R * R) (ang twopi : R) (dsh : R * R * R) (p : dpar3),
+  cone_detpoint sqrt g a ang twopi dsh p =
+    add3 (cone_refpoint sqrt g a ang twopi dsh) (mv3 (cone_rot g a) (surf3 (c_det g) p)) /\
+  cone_detpoint sqrt g a ang twopi dsh p =
+    add3 (add3 (c_tr g) (scal3 (cone_along g ang twopi (snd dsh)) (c_axis g)))
+         (mv3 (axis_rot (c_axis g) a)
+              (sub3 (cone_detpoint sqrt g (1, 0) ang twopi dsh p)
+                    (add3 (c_tr g) (scal3 (cone_along g ang twopi (snd dsh)) (c_axis g))))).
+Proof. intros g a ang twopi dsh p. split; [reflexivity | exact (cone_rigid g a ang twopi dsh p)]. Qed.
+
+Lemma fanbeam_det_to_src_l : forall (g : fan) (a : R * R) (ssh dsh : R * R) (p : dpar2),
+  add2 (fan_detpoint g a dsh p) (fan_det_to_src sqrt g a ssh dsh p false) = fan_src g a ssh /\
+  (fan_src g a ssh <> fan_detpoint g a dsh p ->
+   let n := fan_det_to_src sqrt g a ssh dsh p true in
+   let v := fan_det_to_src sqrt g a ssh dsh p false in
+   dot2 n n = 1 /\ scal2 (norm2 sqrt v) n = v /\
+   add2 (fan_detpoint g a dsh p) (scal2 (norm2 sqrt v) n) = fan_src g a ssh).
+Proof.
+  intros g a ssh dsh p. split; [exact (fan_det_to_src_consistent g a ssh dsh p)|].
+  exact (fan_det_to_src_normalized g a ssh dsh p).
+Qed.
+
+Lemma conebeam_det_to_src_l : forall (g : cone) (a : R * R) (ang twopi : R) (ssh dsh : R * R * R) (p : dpar3),
+  add3 (cone_detpoint sqrt g a ang twopi dsh p) (cone_det_to_src sqrt g a ang twopi ssh dsh p false)
+    = cone_src sqrt g a ang twopi ssh /\
+  (cone_src sqrt g a ang twopi ssh <> cone_detpoint sqrt g a ang twopi dsh p ->
+   let n := cone_det_to_src sqrt g a ang twopi ssh dsh p true in
+   let v := cone_det_to_src sqrt g a ang twopi ssh dsh p false in
+   dot3 n n = 1 /\ scal3 (norm3 sqrt v) n = v /\
+   add3 (cone_detpoint sqrt g a ang twopi dsh p) (scal3 (norm3 sqrt v) n) = cone_src sqrt g a ang twopi ssh).
+Proof.
+  intros g a ang twopi ssh dsh p. split; [exact (cone_det_to_src_consistent g a ang twopi ssh dsh p)|].
+  exact (cone_det_to_src_normalized g a ang twopi ssh dsh p).
+Qed.
+
+Lemma detector_normals_l :
+  (forall (d : det2d) (p : dpar2), deriv2 d p <> (0, 0) ->
+     dot2 (normal2 sqrt d p) (deriv2 d p) = 0 /\ dot2 (normal2 sqrt d p) (normal2 sqrt d p) = 1) /\
+  (forall (d : det3d) (p : dpar3), cross3 (fst (deriv3 d p)) (snd (deriv3 d p)) <> (0, 0, 0) ->
+     dot3 (normal3 sqrt d p) (fst (deriv3 d p)) = 0 /\ dot3 (normal3 sqrt d p) (snd (deriv3 d p)) = 0 /\
+     dot3 (normal3 sqrt d p) (normal3 sqrt d p) = 1).
+Proof. split; [exact normal2_spec | exact normal3_spec]. Qed.
+
+Lemma detector_constructors_wellformed_l :
+  (forall axis d, mk_flat1 sqrt axis = Some d -> wf_det2 d) /\
+  (forall axis r d, mk_circ sqrt axis r = Some d -> wf_det2 d) /\
+  (forall a0 a1 d, mk_flat2 sqrt a0 a1 = Some d -> wf_det3 d).
+Proof. repeat split; [exact mk_flat1_wf | exact mk_circ_wf | exact mk_flat2_wf]. Qed.
